@@ -21,8 +21,15 @@ CHECKS = {
             "them. " + CORR, "", "DESIGN.md 5/C06"),
     "C07": (TV, "Lean model + correspondence (proofs in progress)", CORR, "", "DESIGN.md 5/C07"),
     "C08": (TV, "Lean model + correspondence (proofs in progress)", CORR, "", "DESIGN.md 5/C08"),
+    "C09": (PR, "Lean 4 theorem over the regenerated dataclass schema + fingerprint monitoring of every pool relation",
+            "Machine-checked over the schema re-read from the live classes each run: every relation/operation/"
+            "expression class is a frozen eq dataclass whose compared fields are hashable (proof, partial: Python-level "
+            "mutation of shared objects is outside any model and is covered by monitoring: structure, columns, bounds, "
+            "str, hash and leaf-payload fingerprints of EVERY pool relation before/after every command). " + CORR,
+            "", "DESIGN.md 5/C09"),
     "C10": (TV, "Lean model + correspondence (proofs in progress)", CORR, "", "DESIGN.md 5/C10"),
     "C11": (TV, "Lean model + correspondence (proofs in progress)", CORR, "", "DESIGN.md 5/C11"),
+    "C12": (TV, "Lean model + correspondence incl. evaluation by SQLite (proofs in progress)", CORR, "", "DESIGN.md 5/C12"),
     "C13": (PR, "Lean 4 theorems by mutual structural induction over the nested predicate type + correspondence",
             "Machine-checked for all predicate/expression trees and rows: as_trivial sound (spec and callable), "
             "flatten_logical_and sound, Selection normalisation equivalent, required columns sufficient. " + CORR,
@@ -30,9 +37,15 @@ CHECKS = {
     "C14": (TV, "Lean model + correspondence (proofs in progress)", CORR, "", "DESIGN.md 5/C14"),
     "C15": (TV, "Lean model + correspondence (proofs in progress)", CORR, "", "DESIGN.md 5/C15"),
     "C16": (TV, "Lean model + correspondence (proofs in progress)", CORR, "", "DESIGN.md 5/C16"),
+    "C17": (TV, "Lean model + correspondence (proofs in progress)", CORR, "", "DESIGN.md 5/C17"),
     "C18": (TV, "Lean model + correspondence (proofs in progress)", CORR, "", "DESIGN.md 5/C18"),
+    "C19": (PR, "Lean 4 theorem (names_distinct) + regenerated name format + real/forced thread races",
+            "Machine-checked: names built from fresh fixed-width uuid suffixes are pairwise distinct for ANY counters, "
+            "prefixes and interleavings, and begin with the prefix; the f-string is re-read from the source each run. "
+            "Proof (partial): FreshUuids and step atomicity are assumptions; real threads and a forced "
+            "read-read-write-write race are run against the implementation.", "", "DESIGN.md 5/C19"),
     "C20": (TV, "Lean model + correspondence (proofs in progress)", CORR, "", "DESIGN.md 5/C20"),
 }
 
 _PENDING = "check not built yet in this revision (planned: see DESIGN.md section 5)"
-NOT_APPLICABLE = {p: _PENDING for p in ["C09", "C12", "C17", "C19"]}
+NOT_APPLICABLE = {}
